@@ -34,6 +34,18 @@ class ReadRule(BaseRule):
     def _is_buf(self, node):
         return astq.is_self_attr(node, self.bf)
 
+    def truth_as(self, it, st, node):
+        # `if self._decoded_buffer:` / `if not queue_alias:` - the queue defines __len__ and no __bool__, so this is len(queue) > 0
+        if not getattr(self, "queue_truth_is_len", False):
+            return None
+        vals, _ = it.eval(st, node)
+        if len(vals) == 1 and vals[0][1].sym == "decoded-queue":
+            alt = ast.Compare(left=ast.Call(func=ast.Name(id="len", ctx=ast.Load()), args=[node], keywords=[]), ops=[ast.Gt()], comparators=[ast.Constant(0)])
+            ast.copy_location(alt, node)
+            ast.fix_missing_locations(alt)
+            return alt
+        return None
+
     def getattr(self, it, st, node, base):
         if base.kind == "self" and node.attr == self.bf and isinstance(node.ctx, ast.Load):
             return AV("unk", sym="decoded-queue", none=False)  # the queue, by identity (a local alias keeps it)
@@ -150,6 +162,8 @@ def analyse_reader(ctx, name, params=None):
     bf = buffer_field(m)
     fi = m.method(HR, name)
     rule = ReadRule(bf)
+    bq_ = m.classes.get(f"{RS}.BytesQueueBuffer")
+    rule.queue_truth_is_len = bq_ is not None and "__len__" in bq_.methods and "__bool__" not in bq_.methods
     modelled = {"_raw_read", "_handle_chunk", "_decode", "_flush_decoder", "_init_decoder", "_update_chunk_length", "_error_catcher", "_fp_read", "_init_length"}
     helpers = set()
     for cq in (HR, f"{RS}.BaseHTTPResponse"):
@@ -452,6 +466,8 @@ def run(ctx):
     for flv, dcv, st, node in rule.decodes:
         amt_av = st.view(st.env.get("f0:amt", UNK))
         amt_none = amt_av.none
+        if amt_none is not True and amt_av.kind != "const" and (st.ts.get(("cmp", "p:amt", ">=", "0")) is False or st.ts.get(("cmp", "p:amt", "<", "0")) is True):
+            amt_none = True  # a negative amt asks for everything, like None (whether or not the variable is re-bound to None)
         data_t = st.facts.get("data", (None, None))[0]
         amt0 = st.ts.get(("cmp", "p:amt", "==", "0")) if amt_av.kind != "const" else (amt_av.val == 0)
         fl = flv.val if (flv is not None and flv.kind == "const") else (flv.truth if flv is not None else None)
